@@ -95,8 +95,7 @@ def rule_t12(report, prog):
 
 def rule_writeback(report, prog):
     f = prog.func('nfc.tag.tt2.Type2TagMemoryReader._write_to_tag')
-    okk = bool(find(f.node, 'index = 0')) and bool(find(f.node, 'index += 4')) and \
-        any(isinstance(l, ast.While) and norm(l.test) == 'index < stop' for l in walk_no_nested(f.node))
+    okk = any(isinstance(l, ast.For) and norm(l.iter) == 'range(0, stop, 4)' and norm(l.target) == 'index' for l in walk_no_nested(f.node))
     report.check(okk, 'C02-R3', key(f.qname, 'pages written in ascending order, stride 4'), f.loc(), 'Type 2 write-back order changed')
     cfg = cfg_of(f)
     w = [n for n in cfg.nodes if n.kind == 'stmt' and n.ast is not None and 'self._tag.write(' in norm(n.ast)]
@@ -109,7 +108,7 @@ def rule_writeback(report, prog):
                  key(f.qname, 'tag image updated after a successful write'), f.loc(), 'tag image is not updated after the write')
     g = prog.func('nfc.tag.tt1.Type1TagMemoryReader._write_to_tag')
     loops = [norm(l.iter) for l in walk_no_nested(g.node) if isinstance(l, ast.For)]
-    report.check(loops == ['range(0, stop, 8)', 'range(0, stop)'], 'C02-R3', key(g.qname, 'blocks / bytes written in ascending order'),
+    report.check(sorted(loops) == ['range(0, stop)', 'range(0, stop, 8)'], 'C02-R3', key(g.qname, 'blocks / bytes written in ascending order'),
                  g.loc(), 'Type 1 write-back order changed: %s' % loops)
     cfg = cfg_of(g)
     for call, cmp_ in (('self._tag.write_block(', 'data != self._data_from_tag[i:i + 8]'), ('self._tag.write_byte(', 'data != self._data_from_tag[i]')):
